@@ -40,14 +40,16 @@ ASSUMPTIONS = [
     "'about one second' is judged with 0.75 s slack (the only wall-clock oracle; the stall watchdog has a 10x margin)",
 ]
 BUDGET = {"quick": (110, 4), "thorough": (4000, 16)}
-REQUIRED = ["release_never", "release_in_command", "release_at_join", "release_after_timeout", "notice_printed", "garbage_version", "http_error", "connection_error", "exit_nonzero", "subprocess"]
+REQUIRED = ["release_never", "release_in_command", "release_at_join", "release_after_timeout", "notice_printed", "garbage_version", "http_error", "connection_error", "exit_nonzero", "subprocess", "verbose_command"]
 
 NOTICE = "Please update to the latest ascmhl version using `pip3 install -U ascmhl`."
 RELEASES = ["start", "in_command", "at_join", "join+0.3", "join+0.9", "join+1.5", "never"]
-COMMANDS = ["info", "info_nohist", "diff", "create", "flatten", "usage_main", "missing_arg", "verify", "hash", "xsd", "usage_debug", "create_v", "info_sf", "verify_dh"]
+COMMANDS = ["info", "info_nohist", "diff", "create", "flatten", "usage_main", "missing_arg", "verify", "hash", "xsd", "usage_debug", "create_v", "info_sf", "verify_dh",
+            "info_verbose", "diff_verbose", "verify_verbose", "create_verbose", "flatten_verbose"]
 STATES = ["clean", "altered", "missing", "newfile"]
 
 _versions = st.one_of(
+    st.sampled_from(["2026092715300000000012345-g1a2b3c", "1" * 26 + "-x", "v" + "9" * 24 + "_", "20260927153000000000123456789!", "1." * 30 + "x"]),
     st.sampled_from(["99.0", "v99.1.2", "1.0", "0.1", "0.0.1", "v0.0.9", "2.0rc1", "3.0.dev2", "1.0.post1", "1!0.1", "99.0a1", "v1.2.3-beta", "", "latest", "1.0.0.0.0", "١٢", "1.0+local", "99.0.0-rc.1", " 9.9 "]),
     st.builds(lambda a, b, c: "%d.%d.%d" % (a, b, c), st.integers(0, 50), st.integers(0, 20), st.integers(0, 20)),
     st.text(max_size=8),
@@ -187,6 +189,11 @@ def argv_for(w, cmd, repo):
         "hash": ("debug", ["hash", w.abs("R/a.txt"), "-h", "md5"]),
         "xsd": ("debug", ["xsd-schema-check", w.abs(m), "-xsd", os.path.join(repo, "xsd", "ASCMHL.xsd")]),
         "usage_debug": ("debug", ["verify", "--nope"]),
+        "info_verbose": ("main", ["info", "-v", w.abs("R")]),
+        "diff_verbose": ("main", ["diff", "-v", w.abs("R")]),
+        "verify_verbose": ("debug", ["verify", "-v", w.abs("R")]),
+        "create_verbose": ("main", ["create", "-v", w.abs("R"), "-h", "md5"]),
+        "flatten_verbose": ("main", ["flatten", "-v", w.abs("R"), w.abs("flat")]),
     }
     return table[cmd]
 
@@ -333,7 +340,14 @@ def run_case(scn, ctx):
         require(not got[5], "stall", "%s: still running after 10 s" % label)
         require(got[3] is None, "exception-escapes", "%s: exception reached the command: %r" % (label, got[3]))
         require(got[0] == ref[0], "exit-code", "%s: exit %s, the command's own exit code is %s" % (label, got[0], ref[0]))
-        strip = lambda s: s.replace(w.base, "$W")
+        import re as _re
+
+        # (verbose create / flatten print the new manifest's name, which carries the time of the run)
+        strip = lambda s: _re.sub(r"\d{4}-\d{2}-\d{2}_\d{6}Z", "<TIME>", s.replace(w.base, "$W"))
+        got = (got[0], strip(got[1])) + tuple(got[2:])
+        ref = (ref[0], strip(ref[1])) + tuple(ref[2:])
+        if "verbose" in scn["command"]:
+            ctx.event("verbose_command")
         if got[1] != ref[1]:
             tag = scn["outcome"].get("tag") if scn["outcome"]["kind"] == "tag" else None
             ok = got[1] == ref[1] + NOTICE + "\n"
